@@ -55,6 +55,7 @@ func propDefs() map[string]propDef {
 		Explain: "postconditions over the ghost counters ctr(method,outcome)/ctrsum: an emitted event implies exactly one increment in total, under a label matching the event's outcome and the message's method; a line without a recognised keyword changes no counter",
 	}
 	m["C05"] = propDef{ID: "C05", Level: "proof",
+		Lemmas: []lemmaUnit{{Name: "sshd-formats", Args: []string{"C05"}}},
 		Units: sshdUnits(
 			[]string{`^ensures:(nosend|err)$`},
 			[]string{`^ensures:(err|one|sendone|send|cancel|match|only|fields)$`, `^pre:`},
@@ -194,7 +195,7 @@ func propDefs() map[string]propDef {
 		Units: []unit{u("internal/common.IsNamedPipe"), u("cmd.RunNamedPipe$3"), u("cmd.RunNamedPipe$4"), u("cmd.RunNamedPipe$5"), u("main.main"), u("main.mainWithError"),
 			u("ingesters/namedpipe.(*NamedPipeIngester).Ingest", `^ensures:(nonnil|cberr|rderr)`, `^blocks:`), u("ingesters/auditlog.(*AuditLogIngester).Ingest", `^ensures:`, `^blocks:`, `^pre:`),
 			u("ingesters/syslog.(*SyslogIngester).Ingest", `^ensures:`, `^blocks:`, `^pre:`), u("ingesters/auditlog.(*AuditLogIngester).Process", `^blocks:`, `^ensures:`),
-			u("processors/auditd.(*Auditd).Read", `^ensures:nonnil`, `^blocks:`, `^selects:`), u("processors/auditd.parseAuditLogs", `^ensures:(nonnil|cause)`, `^blocks:`)},
+			u("processors/auditd.(*Auditd).Read", `^ensures:nonnil`, `^blocks:`, `^selects:`, `^assert_at:NewReassembler`), u("processors/auditd.parseAuditLogs", `^ensures:(nonnil|cause)`, `^blocks:`)},
 		Structural: []string{"runnamedpipe-wiring"},
 		Assume: []string{"errgroup semantics: the first non-nil worker error cancels the group context and is returned by Wait (dependency)",
 			"signal.NotifyContext cancels on SIGTERM/SIGINT; process exit status after log.Fatalln; delivery of signals (OS)",
@@ -221,7 +222,7 @@ func propDefs() map[string]propDef {
 		Explain: "postcondition of the real toAuditEvent: type UserAction, component auditd, timestamp == the audit event's, auditId == its session, outcome succeeded iff Result == success, metadata action/how/object from the summary, process_args present iff the event has arguments, subjects a fresh copy equal to the login's (loop invariant of the copy loop), source and target the login's; frame: nothing reachable from the login or the audit event is modified; the same relation is asserted at every EventWriter.Write of the package",
 	}
 	m["C16"] = propDef{ID: "C16", Level: "proof",
-		Units: append(trk(nil, []string{`^ensures:(added|open)`}, nil, nil, all, all),
+		Units: append(trk([]string{`^ensures:agekept`}, []string{`^ensures:(added|open|agekept)`}, nil, nil, all, all),
 			u("processors/auditd.(*Auditd).Read", `^assert_at:`, `^inv-`, `^pre:`, `^selects:staleDataTicker`)),
 		Assume: []string{"time.Time.Before is a strict order on instants (assumed contract)", "the ticker of Auditd.Read fires about once per staleDataCleanupInterval (real time, not decided)"},
 		// Read: both cleanups are called on the ticker arm with cut-off == now - 1 minute, and the ticker period is the same constant
